@@ -34,6 +34,8 @@ func New(directory string, filename string) *Configuration {
 	if err != nil {
 		return newConfiguration
 	}
+	// a configuration is loaded for every assembly file that --all processes
+	defer file.Close()
 
 	decoder := yaml.NewDecoder(file)
 	if err = decoder.Decode(newConfiguration); err != nil {
